@@ -82,6 +82,12 @@ var c02Routes = []string{
 	"{% filter lower|add:x|upper %}a{% endfilter %}",
 	"{% filter join:x %}ab{% endfilter %}",
 	"{% with p=x %}{% filter add:p %}a{% endfilter %}{% endwith %}",
+	// ... and values that render through String() as such parameters
+	"{% filter default:st %}{% endfilter %}",
+	"{% filter add:st %}a{% endfilter %}",
+	"{% filter join:ns %}ab{% endfilter %}",
+	"{% filter default:s.N %}{% endfilter %}",
+	"{{ nothing|default:st }}{{ \"a\"|add:st }}{{ l|join:ns }}",
 	// tainted text combined with already-safe markup (a macro result is marked safe)
 	"{% macro b() %}* {% endmacro %}{{ b() + x }}",
 	"{% macro b() %}* {% endmacro %}{{ x + b() }}",
@@ -172,6 +178,9 @@ func HarnessC02Filters() {
 	src := "{{ x|" + f + arg + " }}"
 	rend := c02Render(src)
 	verifNoRawFlow(rend, x, "a filtered context text reached the output without HTML escaping")
+	// the filter applied through the filter tag to a body that prints the tainted text: the body is escaped
+	// first, the filter then works on rendered output and its result is written as it is
+	verifNoRawFlow(c02Render("{% filter "+f+arg+" %}{{ x }}{% endfilter %}"), x, "a context text printed inside a filter tag reached the output without HTML escaping")
 	// and with the tainted text as the filter's argument
 	if _, ok := c19ArgLits[f]; ok {
 		verifNoRawFlow(c02Render("{{ \"abc\"|"+f+":x }}"), x, "a context text used as filter argument reached the output without HTML escaping")
